@@ -243,4 +243,20 @@ def swallows : Disposition → Bool
   | .print | .pass | .value | .retry => true
   | _ => false
 
+/-! ## Writer.flush (file/writer.py) -/
+
+/-- the classes `Writer.flush` retries on: the clause(s) of the audit at that site with the disposition `retry` -/
+def writerRetryCatch : List Atom :=
+  (auditShapes .file_writer_Writer_flush 0).filterMap (fun ad => if ad.2 = .retry then some ad.1 else none)
+
+/-- file/writer.py:24-37 `flush`: create the directory, `_flush`; on a caught class sleep 0.1 s and `_flush` once more (no second clause:
+    whatever the second attempt raises leaves) -/
+def writerFlush (mkdir first second : Except Exc Unit) : Except Exc Unit :=
+  match mkdir with
+  | .error x => .error x
+  | .ok _ =>
+    match first with
+    | .ok _ => .ok ()
+    | .error x => if catchesAny writerRetryCatch x then second else .error x
+
 end Tranp.Errors
